@@ -16,6 +16,9 @@ THEOREMS = [(M, "NQ.C03." + n) for n in [
     "F3_old_code_counterexample", "F3_fixed_witness", "nonvacuous_loop",
     "macro_pass_tokenwise", "macros_tokenwise", "F4_old_code_counterexample", "F4_fixed_witness",
     "macros_adjacent_counterexample",
+    "stdLike_xMachine", "exec_is_instance", "assemble_simulates_exec", "assemble_simulates_exec_fault",
+    "nonvacuous_exec",
+    "source_operand_text_roundtrip", "replaceConstants_preserves_reserved", "reserved_not_scratch",
 ]]
 TRANSLATORS = ["instr_table", "asm_pass_tables"]
 LEVEL_TEXT = (
@@ -24,7 +27,9 @@ LEVEL_TEXT = (
     "the inserted `set`s plus the instruction; states agree on every register except unnamed scratch R "
     "registers and on the whole memory; faults are reproduced at the image of the same source instruction; "
     "every taken branch lands on the command after its label; halting is preserved), parametric in the "
-    "instruction semantics (any `exec` on evaluated operands). Structural theorem: the output is the source "
+    "instruction semantics (any `exec` on evaluated operands) and instantiated with the executor model of C04 "
+    "(`assemble_simulates_exec`: the target run is `Exec.stepLoc` on the concretised state, proved instruction by "
+    "instruction). Structural theorem: the output is the source "
     "instructions in order, each preceded only by its own `set <scratch> <literal>`s, operands patched. "
     "Macro substitution of the (fixed) code equals simultaneous token-wise replacement for every macro list and "
     "body when no value contains `$` and no use is directly followed by `$` (both necessary, witnesses proved). "
@@ -34,9 +39,10 @@ LEVEL_TEXT = (
 LEVEL_NOTE = (
     "Trusted: Lean kernel; translator + harness; the hand-written role table of the 21 classical/array/"
     "allocation instructions (which operand positions are read / written / immediate / target), validated "
-    "against the real Executor by the run stream. The semantics of assembled `Instr` lists is the same "
-    "small-step semantics read through `embed` (labels and literals absent). Text level: macro substitution "
-    "and tokenisation are modelled and proved; operand parsing is covered by the differential stream only.")
+    "against the real Executor by the run stream and proved equal to Model/Exec.lean on executor programs "
+    "(`exec_is_instance`, simulation mode). Text level: macro substitution and source-operand parsing are "
+    "theorems (the latter on C17's parser model); tokenisation with `instr(args)`, label lines, comments and the "
+    "preamble are covered by the differential stream only (table in Props/C03.lean).")
 TECHNIQUE = ("Lean 4 proof (two-pass compiler simulation: relational multi-step semantics, code_at lemmas, "
              "agreement off the scratch set) + kernel-decided generated obligations + syntactic differential "
              "correspondence + model-free execution oracle")
@@ -79,6 +85,37 @@ CORPUS = [
 ]
 
 
+# Regression corpus: the shrunk failing inputs of the code changes tried against this check
+# (each was reported as a VIOLATION); they run first in the syntactic stream and in the oracle.
+MUTATION_CORPUS = [
+    # labels assigned BEFORE constant insertion (pass order swapped): targets point into the sets
+    [{"m": "jmp", "a": [], "o": [{"lab": "LOOP"}]}, {"l": "CNT"},
+     {"m": "blt", "a": [], "o": [{"r": [0, 13]}, {"i": 2}, {"lab": "CNT"}]}, {"l": "LOOP"}],
+    [{"m": "set", "a": [], "o": [{"r": [0, 0]}, {"i": 0}]}, {"l": "L"},
+     {"m": "add", "a": [], "o": [{"r": [0, 0]}, {"r": [0, 0]}, {"i": 1}]},
+     {"m": "store", "a": [], "o": [{"i": 4}, {"e": [0, {"i": 0}]}]},
+     {"m": "blt", "a": [], "o": [{"r": [0, 0]}, {"i": 3}, {"lab": "L"}]},
+     {"m": "ret_reg", "a": [], "o": [{"r": [0, 0]}]}],
+    # scratch register chosen without looking at the registers of the program (clobbers R0)
+    [{"m": "set", "a": [], "o": [{"r": [0, 0]}, {"i": 5}]},
+     {"m": "add", "a": [], "o": [{"r": [0, 1]}, {"r": [0, 0]}, {"i": 1}]},
+     {"m": "ret_reg", "a": [], "o": [{"r": [0, 1]}]}, {"m": "ret_reg", "a": [], "o": [{"r": [0, 0]}]}],
+    # same, the register occurs only inside brackets (F3) or only later in the program
+    [{"m": "set", "a": [], "o": [{"r": [0, 1]}, {"i": 7}]},
+     {"m": "array", "a": [2], "o": [{"a": 0}]},
+     {"m": "set", "a": [], "o": [{"r": [0, 0]}, {"i": 1}]},
+     {"m": "store", "a": [], "o": [{"i": 9}, {"e": [0, {"r": [0, 0]}]}]},
+     {"m": "ret_arr", "a": [], "o": [{"a": 0}]}, {"m": "ret_reg", "a": [], "o": [{"r": [0, 1]}]}],
+    # exception-table entry (SET, 1) removed: `set R0 1` -> `set R1 1; set R0 R1` does not build
+    [{"m": "set", "a": [], "o": [{"r": [0, 0]}, {"i": 1}]}],
+    # last command not examined for labels / off by one for a trailing label
+    [{"l": "B"}],
+    [{"m": "set", "a": [], "o": [{"r": [0, 2]}, {"i": 0}]},
+     {"m": "bez", "a": [], "o": [{"r": [0, 2]}, {"lab": "END"}]},
+     {"m": "set", "a": [], "o": [{"r": [0, 2]}, {"i": 9}]}, {"l": "X"}, {"l": "END"}],
+]
+
+
 def _key(p):
     return json.dumps(p, sort_keys=True)
 
@@ -97,7 +134,7 @@ def run(ctx):
     n_run = 30000 if ctx.thorough else 3500
 
     # ------------------------------------------------ stream A: syntactic, assemble_subroutine vs model
-    progs = [copy.deepcopy(p) for p in CORPUS]
+    progs = [copy.deepcopy(p) for p in MUTATION_CORPUS + CORPUS]
     progs += [H.gen_std_program(rng) for _ in range(n_std)]
     progs += [H.gen_wild_program(rng) for _ in range(n_wild)]
     real = []
@@ -118,7 +155,7 @@ def run(ctx):
             if len(res.disagreements) > 5:
                 break
     if len(res.samples) < 3:
-        res.samples.append({"program": progs[len(CORPUS)], "assembled": real[len(CORPUS)]})
+        res.samples.append({"program": progs[0], "assembled": real[0]})
 
     # ------------------------------------------------ stream B: text front end
     lines_reqs, lines_real = [], []
@@ -126,6 +163,18 @@ def run(ctx):
     # corpus: the F4 witness (a macro key that is a prefix of another key) — fixed; must stay fixed
     f4_text = "# NETQASM 0.0\n# APPID 0\n# DEFINE a R0\n# DEFINE a1 R5\nset $a1 3\nset $a 4\n"
     f4_want = [{"m": "set", "a": [], "o": [{"r": [0, 5]}, {"i": 3}]}, {"m": "set", "a": [], "o": [{"r": [0, 0]}, {"i": 4}]}]
+    # a key followed by `_`, a digit, a bracket (regression corpus of the look-ahead mutation)
+    for txt, want in [
+        ("# DEFINE i R1\n# DEFINE i_2 R9\nset $i_2 1\nset $i 2\n",
+         [{"m": "set", "a": [], "o": [{"r": [0, 9]}, {"i": 1}]}, {"m": "set", "a": [], "o": [{"r": [0, 1]}, {"i": 2}]}]),
+        ("# DEFINE ms @0\n# DEFINE m R3\nstore $m $ms[$m]\n",
+         [{"m": "store", "a": [], "o": [{"r": [0, 3]}, {"e": [0, {"r": [0, 3]}]}]}]),
+    ]:
+        res.evaluations += 1
+        got = H.real_parse_proto("# NETQASM 0.0\n# APPID 0\n" + txt)
+        if got != {"ok": want}:
+            res.failures.append({"what": "a macro use is replaced by a macro whose key is a prefix of its name",
+                                 "kf": None, "input": {"text": txt, "parsed": got, "expected": want}})
     res.evaluations += 1
     if H.real_parse_proto(f4_text) != {"ok": f4_want}:
         res.failures.append({"what": "a macro use is replaced by a macro whose key is a prefix of its name", "kf": None,
@@ -201,7 +250,7 @@ def run(ctx):
 
     # ------------------------------------------------ stream C: oracle — real assembler + real Executor
     #                                                   vs direct interpretation of the source
-    cases = [copy.deepcopy(p) for p in CORPUS] + [H.gen_std_program(rng) for _ in range(n_run)]
+    cases = [copy.deepcopy(p) for p in MUTATION_CORPUS + CORPUS] + [H.gen_std_program(rng) for _ in range(n_run)]
     run_reqs, run_src = [], []
     for p in cases:
         res.evaluations += 1
